@@ -54,7 +54,11 @@ FontMB(f) == f = "F2"
 \* F1: /FirstChar 32 /LastChar 67 /Widths with A 500, B 1000, space 250 and an explicit 0 for every other code of the
 \*     table (C = 67 among them); /MissingWidth 300 for codes outside the table (D = 68)
 \* F2: /DW 1000 and /W [32 [0]] - an explicit zero next to a non-zero default
+\* F1b: what the NAME F1 means inside a form whose own /Resources define it differently - a direct font dictionary with the
+\*      same /BaseFont as F1 and other widths (A 600, B 900)
 FontW(f, cid) == IF f = "F2" THEN (IF cid = 32 THEN 0 ELSE 1000)
+                 ELSE IF f = "F1b" THEN CASE cid = 65 -> 600 [] cid = 66 -> 900 [] cid = 32 -> 250
+                                          [] cid \in 32..67 -> 0 [] OTHER -> 300
                  ELSE CASE cid = 65 -> 500 [] cid = 66 -> 1000 [] cid = 32 -> 250
                         [] cid \in 32..67 -> 0 [] OTHER -> 300
 FontDesc(f) == -200
@@ -100,14 +104,16 @@ IsNum(x) == x.t = "num"
 \* form XObjects.  Resource names are local to a resource dictionary: the page's /XObject dictionary is PageXO; a form
 \* with a /Resources dictionary of its own (own = TRUE) sees only the XObjects that dictionary lists (xo), a form
 \* without one sees what its caller sees.
-CONSTANTS Forms,     \* function from form key to [m |-> matrix (pts), body |-> token sequence, own |-> BOOLEAN, xo |-> name -> form key]
-          PageXO     \* function from the names in the page's /XObject dictionary to form keys
+CONSTANTS Forms,     \* function from form key to [m |-> matrix (pts), body |-> token sequence, own |-> BOOLEAN,
+                     \*   xo |-> name -> form key, fo |-> name -> font key  (the form's own /XObject and /Font resources)]
+          PageXO,    \* function from the names in the page's /XObject dictionary to form keys
+          PageFonts  \* function from the names in the page's /Font dictionary to font keys
 
 \* ------------------------------------------------------------------ state
 TS0 == [font |-> "", size |-> 0, tc |-> 0, tw |-> 0, tz |-> 100, tl |-> 0, rise |-> 0,
         tm |-> Ident, lx |-> 0, ly |-> 0]              \* tm: e,f in u; lx,ly: pen offset in the line, u
 GS0 == [lw |-> 0, dash |-> <<>>, sc |-> <<>>, nc |-> <<>>]   \* colour <<>> = never set
-State0(ctm, env) == [ctm |-> ctm, dctm |-> ctm, env |-> env, gstack |-> <<>>, ts |-> TS0, gs |-> GS0,
+State0(ctm, env, fenv) == [ctm |-> ctm, dctm |-> ctm, env |-> env, fenv |-> fenv, gstack |-> <<>>, ts |-> TS0, gs |-> GS0,
                 scs |-> "DeviceGray", ncs |-> "DeviceGray", path |-> <<>>, args |-> <<>>,
                 glyphs |-> <<>>, shapes |-> <<>>, err |-> "none"]
 
@@ -210,7 +216,7 @@ SetColor(st, which, q) == IF which = "n" THEN [st EXCEPT !.gs.nc = q] ELSE [st E
 DoForm(st, name) ==
   IF name \notin DOMAIN st.env THEN st
   ELSE LET f == Forms[st.env[name]]
-           inner0 == State0(Mult(f.m, st.ctm), IF f.own THEN f.xo ELSE st.env)
+           inner0 == State0(Mult(f.m, st.ctm), IF f.own THEN f.xo ELSE st.env, IF f.own THEN f.fo ELSE st.fenv)
            inner1 == IF "FormNoGsInherit" \in Dev THEN inner0
                      ELSE [inner0 EXCEPT !.gs = st.gs, !.scs = st.scs, !.ncs = st.ncs,
                                          !.ts = [st.ts EXCEPT !.tm = Ident, !.lx = 0, !.ly = 0]]
@@ -246,7 +252,10 @@ Exec(st, o, a) ==            \* a: the operands popped for operator o (exactly N
     [] o = "Tz" -> IF IsNum(a[1]) THEN [st EXCEPT !.ts.tz = a[1].n] ELSE st
     [] o = "TL" -> IF IsNum(a[1]) THEN [st EXCEPT !.ts.tl = a[1].n] ELSE st
     [] o = "Ts" -> IF IsNum(a[1]) THEN [st EXCEPT !.ts.rise = a[1].n] ELSE st
-    [] o = "Tf" -> LET s1 == IF a[1].t = "name" THEN [st EXCEPT !.ts.font = NameStr(a[1])] ELSE st IN
+    \* the font NAME is looked up in the font resources in force (the page's, or the form's own) when Tf executes; the
+    \* text state keeps the font itself, which a form without resources of its own inherits from its caller
+    [] o = "Tf" -> LET s1 == IF a[1].t = "name" /\ NameStr(a[1]) \in DOMAIN st.fenv
+                             THEN [st EXCEPT !.ts.font = st.fenv[NameStr(a[1])]] ELSE st IN
                    IF IsNum(a[2]) THEN [s1 EXCEPT !.ts.size = a[2].n] ELSE s1
     [] o = "Td" -> IF AllNum(a) THEN TdMove(st, a[1].n, a[2].n) ELSE [st EXCEPT !.ts.lx = 0, !.ts.ly = 0]
     [] o = "TD" -> LET s1 == IF AllNum(a) THEN TdMove(st, a[1].n, a[2].n) ELSE [st EXCEPT !.ts.lx = 0, !.ts.ly = 0] IN
@@ -321,7 +330,7 @@ CONSTANTS DevChoices,      \* set of deviation sets to run every program under
           MixTokens,       \* > 0: the program is extended with instances drawn from MixPool while it is shorter (used
           MixPool          \*      with `tlc -simulate` for long programs mixing all operator groups); 0: fixed program
 
-Start(p, ctm) == dev \in DevChoices /\ prog = p /\ pc = 1 /\ st = State0(ctm, PageXO) /\ snaps = <<>>
+Start(p, ctm) == dev \in DevChoices /\ prog = p /\ pc = 1 /\ st = State0(ctm, PageXO, PageFonts) /\ snaps = <<>>
 
 Snap(s) == [ctm |-> s.ctm, dctm |-> s.dctm, tm |-> s.ts.tm, lx |-> s.ts.lx, font |-> s.ts.font, size |-> s.ts.size,
             tc |-> s.ts.tc, tw |-> s.ts.tw, tz |-> s.ts.tz, tl |-> s.ts.tl, rise |-> s.ts.rise,
